@@ -23,13 +23,20 @@ pub struct FeeTracker {
 
 const NUM_TX: usize = 10_000;
 
-fn push_unique(v: &mut Vec<Vec<u64>>, x: Vec<u64>) {
+/// `cap`: beyond it the OLDEST entry is dropped. Only the list of answers possibly left over from
+/// earlier tips is capped (the cache can only hold a recent one); the admissible list for the
+/// current tip is never truncated.
+fn push_unique_capped(v: &mut Vec<Vec<u64>>, x: Vec<u64>, cap: usize) {
     if !v.contains(&x) {
         v.push(x);
-        if v.len() > 64 {
+        if v.len() > cap {
             v.remove(0);
         }
     }
+}
+
+fn push_unique(v: &mut Vec<Vec<u64>>, x: Vec<u64>) {
+    push_unique_capped(v, x, usize::MAX);
 }
 
 /// Admissible populations for the chain ending in the best tip: most recent up to 10,000
@@ -81,7 +88,7 @@ impl FeeTracker {
                 prev.push(p);
             }
             for p in prev {
-                push_unique(&mut self.previous, p);
+                push_unique_capped(&mut self.previous, p, 48);
             }
             self.tips = tips.clone();
             self.tip_changes += 1;
